@@ -202,6 +202,7 @@ fn generate(rng: &mut Rng) -> C14Sc {
             clients,
             stop_at_ns: None,
             stop_before: false,
+            yields_before_stop: 0,
             cap_ns: 2 * secs(timeout_s) + secs(30),
         },
         roles,
